@@ -1334,6 +1334,18 @@ PREFIX(_intersect_rect) (region_type_t *dest,
     region.extents.x2 = x + width;
     region.extents.y2 = y + height;
 
+    if (!GOOD_RECT (&region.extents))
+    {
+	/* An empty rectangle intersects nothing; passing it on would
+	 * produce a region holding a zero-sized rectangle.
+	 */
+	FREE_DATA (dest);
+	dest->extents.x2 = dest->extents.x1;
+	dest->extents.y2 = dest->extents.y1;
+	dest->data = pixman_region_empty_data;
+	return TRUE;
+    }
+
     return PREFIX(_intersect) (dest, source, &region);
 }
 
